@@ -244,6 +244,7 @@ def case_agent(ctx, case):
         # a system with the framework's default priority registered AFTER the collector: with default settings the collector
         # still observes the state this system leaves
         model.systems.add_system(Churn('late_default', model, late))
+    parked = {}               # agents that left, by id (they may re-join as the same objects)
     pop = {}                  # reference population: id -> value, insertion ordered
     history = []              # deep copies of records as first seen
     flags = set()
@@ -267,13 +268,24 @@ def case_agent(ctx, case):
                 # keep the documented situation: a default-priority system registered AFTER the collector
                 model.systems.remove_system('late_default')
                 model.systems.add_system(Churn('late_default', model, late))
-        # between-steps change by the driver
-        for _ in range(rng.randint(0, 2)):
-            aid = rng.choice(ids)
-            if aid in pop and rng.random() < 0.5:
+        # between-steps change by the driver (now and then a whole round of departures and arrivals; agents that left may come back as
+        # the very same objects)
+        busy = rng.random() < 0.25
+        if busy:
+            ctx.count('busy_rounds_between_two_collections')
+        for _ in range(rng.randint(3, 6) if busy else rng.randint(0, 2)):
+            aid = rng.choice(list(pop)[-2:] + ids) if busy and pop else rng.choice(ids)          # (busy rounds favour the most recent arrivals)
+            if aid in pop and rng.random() < (0.6 if busy else 0.5):
+                parked[aid] = env.get_agent(aid)
                 env.remove_agent(aid)
                 del pop[aid]
             elif aid not in pop:
+                back = parked.get(aid)
+                if back is not None and copy_at is None and rng.random() < 0.6 and back.model is model:
+                    env.add_agent(back)                    # the same agent object re-joins, value unchanged
+                    pop[aid] = back[Val].v
+                    ctx.count('agents_rejoining_as_the_same_object')
+                    continue
                 v = rng.randint(0, 99)
                 a = core.Agent(aid, model)
                 a.add_component(Val(a, model, v))
